@@ -1258,6 +1258,103 @@ def unroll_const_loops(fnode, consts=None, limit=8, table_nodes=None):
     return fn
 
 
+def local_table_nodes(fnode, also=None):
+    """resolver for expand_quantifiers / unroll_const_loops: a local name bound exactly once, at the top level of the function, to a
+    literal tuple/list whose entries only read constants, parameters and attributes of `self` that the function never stores to --
+    so an entry means the same wherever the table is read.  `also`: another resolver asked for every other name"""
+    stores = [n for n in ast.walk(fnode) if isinstance(n, (ast.Name, ast.Attribute, ast.Subscript)) and isinstance(n.ctx, (ast.Store, ast.Del))]
+    stored_names = [n.id for n in stores if isinstance(n, ast.Name)]
+    stored_attrs = {norm(n) for n in stores if isinstance(n, ast.Attribute)} | {norm(n.value) for n in stores if isinstance(n, ast.Subscript)}
+    has_calls_on_self = False
+    tables = {}
+    for st in fnode.body:
+        if isinstance(st, ast.Assign) and len(st.targets) == 1 and isinstance(st.targets[0], ast.Name) and isinstance(st.value, (ast.Tuple, ast.List)) \
+                and stored_names.count(st.targets[0].id) == 1:
+            ok = True
+            for n in ast.walk(st.value):
+                if isinstance(n, (ast.Call, ast.Lambda, ast.Starred, ast.NamedExpr, ast.Await, ast.Yield, ast.YieldFrom, ast.GeneratorExp, ast.ListComp, ast.SetComp, ast.DictComp)):
+                    ok = False
+                if isinstance(n, ast.Name) and isinstance(n.ctx, ast.Load) and n.id in stored_names:
+                    ok = False
+                if isinstance(n, ast.Attribute) and (norm(n) in stored_attrs or not norm(n).startswith('self.')):
+                    ok = False
+            if ok:
+                tables[st.targets[0].id] = st.value
+
+    def look(text):
+        if text in tables:
+            return tables[text]
+        return also(text) if also is not None else None
+    return look
+
+
+def join_over_table_to_concat(fnode, table_nodes=None, limit=8):
+    """`''.join(E for x in TABLE if C)` over a literal table (in place, or one the resolver finds) is the concatenation
+    `(E1 if C1 else '') + (E2 if C2 else '') + ...` of its rows -- only for the empty separator, where an omitted row leaves nothing"""
+    fn = clone(fnode)
+
+    def elements(it):
+        if isinstance(it, (ast.Tuple, ast.List)):
+            return it.elts
+        if table_nodes is not None and isinstance(it, (ast.Name, ast.Attribute)):
+            node = table_nodes(norm(it))
+            if isinstance(node, (ast.Tuple, ast.List)):
+                return node.elts
+        return None
+
+    class J(ast.NodeTransformer):
+        def visit_Call(self, c):
+            self.generic_visit(c)
+            if not (isinstance(c.func, ast.Attribute) and c.func.attr == 'join' and isinstance(c.func.value, ast.Constant) and c.func.value.value == ''
+                    and len(c.args) == 1 and not c.keywords and isinstance(c.args[0], (ast.GeneratorExp, ast.ListComp)) and len(c.args[0].generators) == 1):
+                return c
+            g = c.args[0].generators[0]
+            elts = elements(g.iter)
+            if elts is None or not (0 < len(elts) <= limit) or g.is_async:
+                return c
+            if isinstance(g.target, ast.Name):
+                bs = [{g.target.id: e} for e in elts]
+            elif isinstance(g.target, (ast.Tuple, ast.List)) and all(isinstance(x, ast.Name) for x in g.target.elts) \
+                    and all(isinstance(e, (ast.Tuple, ast.List)) and len(e.elts) == len(g.target.elts) for e in elts):
+                bs = [dict(zip([x.id for x in g.target.elts], e.elts)) for e in elts]
+            else:
+                return c
+            parts = []
+            for b in bs:
+                val = _Rename({}, b).visit(clone(c.args[0].elt))
+                if g.ifs:
+                    conds = [_Rename({}, b).visit(clone(t)) for t in g.ifs]
+                    test = conds[0] if len(conds) == 1 else ast.BoolOp(op=ast.And(), values=conds)
+                    val = ast.IfExp(test=test, body=val, orelse=ast.Constant(value=''))
+                parts.append(val)
+            out = parts[0]
+            for p_ in parts[1:]:
+                out = ast.BinOp(left=out, op=ast.Add(), right=p_)
+            return ast.copy_location(out, c)
+    fn = J().visit(fn)
+    ast.fix_missing_locations(fn)
+    return fn
+
+
+def fold_literal_subscripts(fnode):
+    """`(a, b, c)[1]` -> `b` (what a substitution of a table row for a loop variable leaves behind)"""
+    fn = clone(fnode)
+
+    class F(ast.NodeTransformer):
+        def visit_Subscript(self, n):
+            self.generic_visit(n)
+            if isinstance(n.value, (ast.Tuple, ast.List)) and isinstance(n.ctx, ast.Load) and not any(isinstance(e, ast.Starred) for e in n.value.elts):
+                i = n.slice.value if isinstance(n.slice, ast.Constant) else (
+                    -n.slice.operand.value if isinstance(n.slice, ast.UnaryOp) and isinstance(n.slice.op, ast.USub) and isinstance(n.slice.operand, ast.Constant)
+                    and isinstance(n.slice.operand.value, int) else None)
+                if isinstance(i, int) and not isinstance(i, bool) and -len(n.value.elts) <= i < len(n.value.elts):
+                    return n.value.elts[i]
+            return n
+    fn = F().visit(fn)
+    ast.fix_missing_locations(fn)
+    return fn
+
+
 def expand_quantifiers(fnode, module=None, limit=16, table_nodes=None):
     """any(E for x in (a, b, ...)) -> E[x:=a] or E[x:=b] ...;  all(...) -> and.  The iterable may be a literal
     tuple/list, a module-level name bound to one, or a table the resolver table_nodes finds (class level); the target may be a tuple
@@ -1520,6 +1617,34 @@ def mode_variable_to_nested_loop(fnode):
         set_parents(fn)
         return fn
     return None
+
+
+def split_tuple_assign(fnode):
+    """`a, b, c = (x, y, z)` with plain names on the left, none of which is read on the right, is `a = x; b = y; c = z`"""
+    fn = clone(fnode)
+
+    def rewrite(body):
+        out = []
+        for st in body:
+            for fld in ('body', 'orelse', 'finalbody'):
+                if isinstance(getattr(st, fld, None), list) and not isinstance(st, ast.ClassDef):
+                    setattr(st, fld, rewrite(getattr(st, fld)))
+            for h in getattr(st, 'handlers', []) or []:
+                h.body = rewrite(h.body)
+            if isinstance(st, ast.Assign) and len(st.targets) == 1 and isinstance(st.targets[0], (ast.Tuple, ast.List)) and isinstance(st.value, (ast.Tuple, ast.List)) \
+                    and len(st.value.elts) == len(st.targets[0].elts) and all(isinstance(t, ast.Name) for t in st.targets[0].elts) \
+                    and not any(isinstance(a, ast.Starred) for a in st.value.elts):
+                tnames = {t.id for t in st.targets[0].elts}
+                read = {n.id for n in ast.walk(st.value) if isinstance(n, ast.Name)}
+                if len(tnames) == len(st.targets[0].elts) and not (tnames & read):
+                    for t, a in zip(st.targets[0].elts, st.value.elts):
+                        out.append(ast.copy_location(ast.Assign(targets=[t], value=a), st))
+                    continue
+            out.append(st)
+        return out
+    fn.body = rewrite(fn.body)
+    ast.fix_missing_locations(fn)
+    return fn
 
 
 def split_group_unpacking(fnode):
